@@ -12,11 +12,34 @@ Operation lines (all self-contained; STORE says which real `Variable` subclass i
   phys  STORE T F set V   (physf: every number handed over as float)
                                         ->  ok <store> <read-back n/d> | err <store>
   physx STORE T F set V   (factor/value not dyadic: float arithmetic rounds; oracle only)
+  raw   STORE T get                     ->  ok <int> | err
+  raw   STORE T set V                   ->  ok <store> <read-back int> | err <store>
+  data  STORE T get                     ->  ok <hex> | err                 (var.data)
+  data  STORE T set HEX                 ->  ok <store> <read-back hex> | err <store>
+  via W:R <raw|data|desc|phys|physf|physx op>
+        the same operation with the write spelt W and every read spelt R:
+          p  the attribute           var.phys / var.phys = x / var.data / var.data = b
+          m  the method, keyword     var.read(fmt="phys") / var.write(x, fmt="phys") / get_data() / set_data(b)
+          a  the method, positional  var.read("phys") / var.write(x, "phys")            (data: as m)
+          n  the method, default fmt var.read() / var.write(x)                          (raw view only)
+        get ->  as the plain operation
+        set ->  ok <store> <read-back> <raw> <data> | err <store>   (<raw>, <data>: the raw value and the
+                bytes as the variable shows them afterwards through spelling R)
+  fmt   STORE T CPS get | set V         var.read(fmt=<any string>) / var.write(V, fmt=<any string>)
+                                        ->  ok <value|none> | ok <store> <read-back> | err ...
+  mseq  STORE T F TBL DEFS step|step|...   one variable object, every step with its own spelling and view:
+          <p|m|a|n><r|f|d|b>?  read   (r raw, f phys, d desc, b bytes)
+          <p|m|a|n><r|f|d|b>=<value>   write (int, n/d, cps, hex)
+          B<KEY>? / B<KEY>=<int>       bit field
+                                        ->  ok r1;r2;... <store>   (a write shows ok | err)
 
   STORE = d:<hex>   harness subclass of canopen.variable.Variable over a dict
           l:<hex>   LocalNode.sdo[...] (SdoVariable over LocalNode.data_store)
           s:<hex>   RemoteNode.sdo[...] talking SDO to a LocalNode over a synchronous fake bus
           p:<off>:<framehex>  PdoVariable, byte-aligned at byte <off> of a TPDO frame
+          L:<hex> / S:<hex>   the variable is member 2 of a record: LocalNode.sdo[i][2] / RemoteNode.sdo[i][2]
+          A:<hex> / T:<hex>   member 3 of an array, made from the template member 1: LocalNode / RemoteNode
+          P:<off>:<framehex>  the record member mapped into the TPDO, looked up by name ("rec.v")
   KEY   = n:<int> | l:<ints> | t:<ints> (tuple) | s:<a>:<b>:<c> (slice, _ = omitted) | d:<cps>
   DEFS  = name=bits;...   TBL = value=cps;...   (cps = code points, "-" = empty)
 """
@@ -27,7 +50,7 @@ from canopen import objectdictionary as od
 from canopen.variable import Variable
 
 ID = "C20"
-PROOF_MODULES = ["CanopenProofs.C20"]
+PROOF_MODULES = ["CanopenProofs.C20", "CanopenProofs.C20Methods"]
 GENERATED = ["Datatypes"]
 THEOREMS = [
     "Canopen.C20.bits_set_exact",
@@ -48,6 +71,13 @@ THEOREMS = [
     "Canopen.C20.phys_through_store",
     "Canopen.C20.integer_types_table",
     "Canopen.C20.bitsObj_coherent",
+    "Canopen.C20.methods_agree",
+    "Canopen.C20.spelling_irrelevant",
+    "Canopen.C20.phys_through_methods",
+    "Canopen.C20.desc_through_methods",
+    "Canopen.C20.bits_seen_by_methods",
+    "Canopen.C20.data_raw_agree",
+    "Canopen.C20.methods_over_any_store",
 ]
 FINGERPRINT = [
     "canopen.objectdictionary:ODVariable.encode_bits",
@@ -61,11 +91,16 @@ FINGERPRINT = [
     "canopen.variable:Variable.phys",
     "canopen.variable:Variable.desc",
     "canopen.variable:Variable.bits",
+    "canopen.variable:Variable.read",
+    "canopen.variable:Variable.write",
+    "canopen.variable:Variable.data",
 ]
 TRUSTED = [
     "Python int bit operations modelled as infinite two's complement (Views.lean tbit/pyAnd/pyOr/...)",
     "Python float '/', '*' and round(): scaling is proved over the rationals with round-half-even; "
     "IEEE rounding is differential-only (exact on the dyadic stream, bounded by the oracle on physx)",
+    "read(\"phys\") and read(fmt=\"phys\") (likewise write) are one call for the model: argument passing is Python's; "
+    "both are driven",
     "the store law get(set(s, x)) = x for SDO variables is what C01-C03 establish; here it is a "
     "hypothesis of the theorems and exercised through a LocalNode on a synchronous fake bus",
 ]
@@ -73,6 +108,8 @@ ASSUMPTIONS = [
     "only INTEGER_TYPES variables (the property's domain); BOOLEAN/REAL/string variables are not modelled",
     "field values are Python ints; keys are int / list / tuple / slice / str",
     "PDO variables byte-aligned and of full length (bit-aligned PDO mapping is C05)",
+    "values handed to write()/the setters have the type of the view (int for raw, int/float for phys, str for "
+    "desc, bytes for data); other combinations are modelled (Views.lean setRawVal/...) but not driven",
 ]
 RULE = ("every contiguous bit range within 32 bits in the four spellings (number where one bit wide) "
         "on UNSIGNED32/INTEGER32 and within the width of the other integer types, raw values at "
@@ -80,7 +117,12 @@ RULE = ("every contiguous bit range within 32 bits in the four spellings (number
         "and exhaustive for UNSIGNED8; description tables of 1..20 entries (unique and duplicate "
         "descriptions, undescribed values, values out of range); dyadic factors 2^-10..2^10 x "
         "{1,3,5} of both signs with quotients at ties, near-ties and range ends; four stores "
-        "(dict, LocalNode, SDO over a fake bus, byte-aligned PDO); an out-of-domain stream "
+        "(dict, LocalNode, SDO over a fake bus, byte-aligned PDO) and the same with the variable a record "
+        "member or an array member made from the template; every view (raw, phys, desc, bytes) through "
+        "every spelling of the write and of the read-back (attribute, read/write with keyword, positional "
+        "and default fmt, .data / get_data / set_data) with the raw value and the bytes observed through "
+        "the variable afterwards, histories mixing spellings, views and bit fields on one variable object, "
+        "unknown fmt strings (model only); an out-of-domain stream "
         "(undefined names, empty / negative / non-contiguous lists, stepped and open slices, "
         "values that do not fit, wrong-length data) is compared with the model only; "
         "non-trivial = the implementation returned a value")
@@ -207,9 +249,14 @@ class FakeNet(canopen.Network):
             p.notify(can_id, bytearray(data), 0.0)
 
 
-def mk_od(t, factor=1, descs=(), bitdefs=(), fillers=0, pdo=False):
+SUBS = {None: 0, "rec": 2, "arr": 3}
+
+
+def mk_od(t, factor=1, descs=(), bitdefs=(), fillers=0, pdo=False, member=None):
+    """the variable stands alone at IDX, is member 2 of the record at IDX, or is the template (member 1) of the
+    array at IDX, from which the library makes member 3"""
     d = od.ObjectDictionary()
-    v = od.ODVariable("v", IDX, 0)
+    v = od.ODVariable("v", IDX, {None: 0, "rec": 2, "arr": 1}[member])
     v.data_type = t
     v.factor = factor
     for val, text in descs:
@@ -217,7 +264,20 @@ def mk_od(t, factor=1, descs=(), bitdefs=(), fillers=0, pdo=False):
     for n, b in bitdefs:
         v.add_bit_definition(n, b)
     v.pdo_mappable = True
-    d.add_object(v)
+    if member is None:
+        d.add_object(v)
+    else:
+        box = od.ODRecord("rec", IDX) if member == "rec" else od.ODArray("arr", IDX)
+        n = od.ODVariable("n", IDX, 0)
+        n.data_type = od.UNSIGNED8
+        box.add_member(n)
+        if member == "rec":
+            o = od.ODVariable("other", IDX, 1)
+            o.data_type = od.UNSIGNED16
+            o.factor = 1000
+            box.add_member(o)
+        box.add_member(v)
+        d.add_object(box)
     for i in range(fillers):
         f = od.ODVariable(f"fill{i}", 0x2100 + i, 0)
         f.data_type = od.UNSIGNED8
@@ -240,25 +300,32 @@ def mk_od(t, factor=1, descs=(), bitdefs=(), fillers=0, pdo=False):
     return d, v
 
 
+MEMBER_OF = {"d": None, "l": None, "s": None, "p": None, "L": "rec", "S": "rec", "P": "rec", "A": "arr", "T": "arr"}
+
+
 def build(store, t, **kw):
     """Returns (variable, peek) — peek() gives the bytes now held by the store."""
     p = store.split(":")
     kind = p[0]
+    if kind not in MEMBER_OF:
+        raise ValueError(store)
+    member = MEMBER_OF[kind]
+    sub = SUBS[member]
     if kind == "d":
         d, v = mk_od(t, **kw)
         cell = {(IDX, 0): unhx(p[1])}
         peek = lambda: cell[(IDX, 0)]                                   # noqa: E731
         peek.poke = lambda b: cell.__setitem__((IDX, 0), bytes(b))
         return DictVariable(v, cell), peek
-    if kind == "l":
-        d, v = mk_od(t, **kw)
+    if kind in "lLA":
+        d, v = mk_od(t, member=member, **kw)
         node = canopen.LocalNode(1, d)
-        node.data_store[IDX] = {0: unhx(p[1])}
-        peek = lambda: node.data_store[IDX][0]                          # noqa: E731
-        peek.poke = lambda b: node.data_store[IDX].__setitem__(0, bytes(b))
-        return node.sdo[IDX], peek
-    if kind == "s":
-        d, v = mk_od(t, **kw)
+        node.data_store[IDX] = {sub: unhx(p[1])}
+        peek = lambda: node.data_store[IDX][sub]                        # noqa: E731
+        peek.poke = lambda b: node.data_store[IDX].__setitem__(sub, bytes(b))
+        return (node.sdo[IDX] if member is None else node.sdo[IDX][sub]), peek
+    if kind in "sST":
+        d, v = mk_od(t, member=member, **kw)
         na, nb = FakeNet(), FakeNet()
         na.peers.append(nb)
         nb.peers.append(na)
@@ -268,24 +335,27 @@ def build(store, t, **kw):
         nb.add_node(local)
         remote.sdo.RESPONSE_TIMEOUT = 0.01
         remote.sdo.MAX_RETRIES = 0
-        local.data_store[IDX] = {0: unhx(p[1])}
-        peek = lambda: local.data_store[IDX][0]                         # noqa: E731
-        peek.poke = lambda b: local.data_store[IDX].__setitem__(0, bytes(b))
-        return remote.sdo[IDX], peek
-    if kind == "p":
+        local.data_store[IDX] = {sub: unhx(p[1])}
+        peek = lambda: local.data_store[IDX][sub]                       # noqa: E731
+        peek.poke = lambda b: local.data_store[IDX].__setitem__(sub, bytes(b))
+        return (remote.sdo[IDX] if member is None else remote.sdo[IDX][sub]), peek
+    if kind in "pP":
         off, frame = int(p[1]), unhx(p[2])
         size = (SPEC[t][0] // 8) if t in SPEC else 1
         trail = len(frame) - off - size
         if trail < 0:
             raise ValueError("frame shorter than the window")
-        d, v = mk_od(t, fillers=off + trail, pdo=True, **kw)
+        d, v = mk_od(t, fillers=off + trail, pdo=True, member=member, **kw)
         net = FakeNet()
         node = canopen.LocalNode(1, d)
         net.add_node(node)
         m = node.tpdo[1]
         for i in range(off):
             m.add_variable(0x2100 + i)
-        m.add_variable(IDX)
+        if member is None:
+            m.add_variable(IDX)
+        else:
+            m.add_variable(IDX, sub)
         for i in range(off, off + trail):
             m.add_variable(0x2100 + i)
         m.data = bytearray(frame)
@@ -297,7 +367,7 @@ def build(store, t, **kw):
             new[off:off + size] = b
             m.data = new
         peek.poke = poke
-        return m[IDX], peek
+        return (m[IDX] if member is None else m["rec.v"]), peek
     raise ValueError(store)
 
 
@@ -320,9 +390,234 @@ def exact_float(fr):
         return False
 
 
+class BadOp(Exception):
+    pass
+
+
+VIEW_OF = {"r": "raw", "f": "phys", "d": "desc", "b": "data"}
+
+
+def do_get(var, view, sp):
+    """one read of a view, spelt sp"""
+    if sp not in "pman":
+        raise BadOp(sp)
+    if view == "data":
+        if sp == "n":
+            raise BadOp("data has no default-fmt spelling")
+        return var.data if sp == "p" else var.get_data()
+    if sp == "p":
+        return {"raw": lambda: var.raw, "phys": lambda: var.phys, "desc": lambda: var.desc}[view]()
+    if sp == "m":
+        return var.read(fmt=view)
+    if sp == "a":
+        return var.read(view)
+    if view != "raw":
+        raise BadOp("default fmt is raw")
+    return var.read()
+
+
+def do_set(var, view, sp, value):
+    """one write through a view, spelt sp"""
+    if sp not in "pman":
+        raise BadOp(sp)
+    if view == "data":
+        if sp == "n":
+            raise BadOp("data has no default-fmt spelling")
+        if sp == "p":
+            var.data = value
+        else:
+            var.set_data(value)
+        return
+    if sp == "p":
+        if view == "raw":
+            var.raw = value
+        elif view == "phys":
+            var.phys = value
+        else:
+            var.desc = value
+    elif sp == "m":
+        r = var.write(value, fmt=view)
+        if r is not None:
+            raise TypeError("write() returned a value")
+    elif sp == "a":
+        var.write(value, view)
+    else:
+        if view != "raw":
+            raise BadOp("default fmt is raw")
+        var.write(value)
+
+
+def show_view(view, r):
+    if view == "raw":
+        return show_int(r) if not isinstance(r, bool) else "nonint:bool"
+    if view == "phys":
+        if isinstance(r, (int, float)) and not isinstance(r, bool):
+            try:
+                return fr_s(Fraction(r))
+            except (ValueError, OverflowError):
+                return "nonnum:" + repr(r)
+        return f"nonnum:{type(r).__name__}"
+    if view == "desc":
+        return nl(cps_of(r)) if isinstance(r, str) else f"nonstr:{type(r).__name__}"
+    if view == "data":
+        return hx(bytes(r)) if isinstance(r, (bytes, bytearray)) else f"nonbytes:{type(r).__name__}"
+    raise BadOp(view)
+
+
+def spell_ok(view, sp):
+    return sp in "pma" or (sp == "n" and view == "raw")
+
+
+def run_view(a, w, r, ext):
+    """raw / data / desc / phys / physf / physx operation with the write spelt w and the reads spelt r"""
+    kind = a[0]
+    t = int(a[2])
+    if kind == "raw":
+        view, kw, args = "raw", {}, a[3:]
+    elif kind == "data":
+        view, kw, args = "data", {}, a[3:]
+    elif kind == "desc":
+        view, kw, args = "desc", {"descs": parse_tbl(a[3])}, a[4:]
+    elif kind in ("phys", "physf", "physx"):
+        f = s_fr(a[3])
+        as_float = kind != "phys"
+        if kind != "physx" and not exact_float(f):
+            return "bad-op"
+        view, kw, args = "phys", {"factor": to_num(f, as_float)}, a[4:]
+    else:
+        return "bad-op"
+    if not spell_ok(view, r) or (args[0] == "set" and not spell_ok(view, w)):
+        return "bad-op"
+    if args[0] == "set":
+        if view == "raw":
+            value = int(args[1])
+        elif view == "data":
+            value = unhx(args[1])
+        elif view == "desc":
+            value = str_of(unil(args[1]))
+        else:
+            v = s_fr(args[1])
+            if kind != "physx" and not exact_float(v):
+                return "bad-op"
+            value = to_num(v, as_float)
+    var, peek = build(a[1], t, **kw)
+    if args[0] == "get":
+        try:
+            return "ok " + show_view(view, do_get(var, view, r))
+        except BadOp:
+            raise
+        except Exception:
+            return "err"
+    try:
+        do_set(var, view, w, value)
+    except BadOp:
+        raise
+    except Exception:
+        return f"err {hx(peek())}"
+    cols = [(view, r)] + ([("raw", r), ("data", "p" if r == "p" else "m")] if ext else [])
+    outs = []
+    for vw, sp in cols:
+        try:
+            outs.append(show_view(vw, do_get(var, vw, sp)))
+        except BadOp:
+            raise
+        except Exception:
+            outs.append("err")
+    return f"ok {hx(peek())} " + " ".join(outs)
+
+
+def run_mseq(a):
+    t = int(a[2])
+    f = s_fr(a[3])
+    if not exact_float(f):
+        return "bad-op"
+    var, peek = build(a[1], t, factor=to_num(f, False), descs=parse_tbl(a[4]), bitdefs=parse_defs(a[5]))
+    outs = []
+    for s in a[6].split("|"):
+        if s[0] == "B":
+            try:
+                if s.endswith("?"):
+                    outs.append(show_int(var.bits[parse_key(s[1:-1])]))
+                else:
+                    k, v = s[1:].split("=")
+                    var.bits[parse_key(k)] = int(v)
+                    outs.append("ok")
+            except Exception:
+                outs.append("err")
+            continue
+        sp, view = s[0], VIEW_OF[s[1]]
+        if not spell_ok(view, sp) or (view == "data" and sp == "n"):
+            return "bad-op"
+        if s[2:] == "?":
+            try:
+                outs.append(show_view(view, do_get(var, view, sp)))
+            except BadOp:
+                raise
+            except Exception:
+                outs.append("err")
+            continue
+        if s[2] != "=":
+            return "bad-op"
+        txt = s[3:]
+        if view == "raw":
+            value = int(txt)
+        elif view == "data":
+            value = unhx(txt)
+        elif view == "desc":
+            value = str_of(unil(txt))
+        else:
+            q = s_fr(txt)
+            if not exact_float(q):
+                return "bad-op"
+            value = to_num(q, len(outs) % 2 == 1)      # handed over as int (when integral) or as float, in turn
+        try:
+            do_set(var, view, sp, value)
+            outs.append("ok")
+        except BadOp:
+            raise
+        except Exception:
+            outs.append("err")
+    return f"ok {';'.join(outs)} {hx(peek())}"
+
+
+def show_any(r):
+    if r is None:
+        return "none"
+    if isinstance(r, int) and not isinstance(r, bool):
+        return str(r)
+    return f"other:{type(r).__name__}"
+
+
 def run_impl(op):
     a = op.split(" ")
     kind = a[0]
+    if kind == "via":
+        w, _, r = a[1].partition(":")
+        if len(w) != 1 or len(r) != 1 or w not in "pman" or r not in "pman":
+            return "bad-op"
+        return run_view(a[2:], w, r, True)
+    if kind in ("raw", "data"):
+        return run_view(a, "p", "p", False)
+    if kind == "mseq":
+        return run_mseq(a)
+    if kind == "fmt":
+        t = int(a[2])
+        name = str_of(unil(a[3]))
+        var, peek = build(a[1], t)
+        if a[4] == "get":
+            try:
+                return "ok " + show_any(var.read(fmt=name))
+            except Exception:
+                return "err"
+        try:
+            var.write(int(a[5]), fmt=name)
+        except Exception:
+            return f"err {hx(peek())}"
+        try:
+            rb = show_any(var.read(fmt=name))
+        except Exception:
+            rb = "err"
+        return f"ok {hx(peek())} {rb}"
     if kind == "vseq":
         # the variable object is kept, `var.bits` is taken afresh for every step, and `R=<int>` changes the raw
         # value by another path in between
@@ -433,7 +728,8 @@ def canon_model(op, out):
 
 
 def model_skips(op):
-    return op.startswith("physx ")
+    a = op.split(" ")
+    return a[0] == "physx" or (a[0] == "via" and len(a) > 2 and a[2] == "physx")
 
 
 # ---- independent oracle ------------------------------------------------------------------------
@@ -441,7 +737,7 @@ def window(store, t):
     """(initial value bytes or None, function replacing the value bytes in the whole store)"""
     p = store.split(":")
     size = SPEC[t][0] // 8
-    if p[0] == "p":
+    if p[0] in ("p", "P"):
         off, frame = int(p[1]), unhx(p[2])
         return frame[off:off + size], (lambda nb: frame[:off] + nb + frame[off + size:]), frame
     b = unhx(p[1])
@@ -498,11 +794,137 @@ def pat(t, v):
     return (v % (1 << w)).to_bytes(w // 8, "little")
 
 
+SPELT = {"p": "the attribute", "m": "the method with fmt= keyword", "a": "the method with positional fmt",
+         "n": "the method with its default fmt"}
+
+
 def oracle(op, out):
+    """every access path is held to the same statement: the `via` form is judged as the plain operation, and the
+    raw value and the bytes the variable shows afterwards must be those it holds"""
+    a = op.split(" ")
+    if out.startswith("HARNESS-RAISED") or out == "bad-op" or "nonint" in out or "nonstr" in out \
+            or "nonnum" in out or "nonbytes" in out or "other:" in out:
+        return f"unexpected harness-level output {out}"
+    if a[0] == "fmt":
+        return None                      # an unknown fmt string is outside the property: model only
+    if a[0] == "mseq":
+        return oracle_mseq(a, out)
+    if a[0] != "via":
+        return oracle_plain(op, out)
+    w_sp, _, r_sp = a[1].partition(":")
+    inner = a[2:]
+    o = out.split(" ")
+    how = f" [write through {SPELT.get(w_sp)}, reads through {SPELT.get(r_sp)}]"
+    if inner[-1] == "get" or o[0] != "ok":
+        msg = oracle_plain(" ".join(inner), out)
+        return msg + how if msg else None
+    if len(o) != 5:
+        return f"malformed output {out}"
+    msg = oracle_plain(" ".join(inner), " ".join(o[:3]))
+    if msg:
+        return msg + how
+    t = int(inner[2])
+    if t not in SPEC:
+        return None
+    w, signed = SPEC[t]
+    size = w // 8
+    st = unhx(o[1])
+    off = int(inner[1].split(":")[1]) if inner[1][0] in "pP" else 0
+    held = st[off:off + size]
+    if len(held) != size or (inner[1][0] not in "pP" and len(st) != size):
+        return None
+    exp_raw = str(int.from_bytes(held, "little", signed=signed))
+    if o[3] != exp_raw:
+        return (f"after the write the variable holds {hx(held)} (raw {exp_raw}) but its raw value reads {o[3]}" + how)
+    if o[4] != hx(held):
+        return f"after the write the variable holds {hx(held)} but its data reads {o[4]}" + how
+    return None
+
+
+def oracle_mseq(a, out):
+    t = int(a[2])
+    if t not in SPEC:
+        return None
+    w, signed = SPEC[t]
+    f = s_fr(a[3])
+    tbl = parse_tbl(a[4])
+    defs = parse_defs(a[5])
+    if len({v for v, _ in tbl}) != len(tbl) or len({d for _, d in tbl}) != len(tbl):
+        return None
+    cur, put, whole = window(a[1], t)
+    if len(cur) != w // 8:
+        return None
+    p_now, res = int.from_bytes(cur, "little"), []
+    for s in a[6].split("|"):
+        raw = p_now - (1 << w) if signed and p_now >> (w - 1) else p_now
+        if s[0] == "B":
+            body = s[1:]
+            k = body[:-1] if body.endswith("?") else body.split("=")[0]
+            rg = key_range(k, defs)
+            if rg is None or rg[1] > w:
+                return None
+            lo, hi = rg
+            n = hi - lo
+            if body.endswith("?"):
+                res.append(str((p_now >> lo) & ((1 << n) - 1)))
+            else:
+                v = int(body.split("=")[1])
+                if not 0 <= v < (1 << n):
+                    return None
+                p_now = (p_now & ~(((1 << n) - 1) << lo)) | (v << lo)
+                res.append("ok")
+            continue
+        view = VIEW_OF[s[1]]
+        if s[2:] == "?":
+            if view == "raw":
+                res.append(str(raw))
+            elif view == "phys":
+                res.append(fr_s(raw * f))
+            elif view == "desc":
+                m = [d for v, d in tbl if v == raw]
+                res.append(nl(cps_of(m[0])) if m else "err")
+            else:
+                res.append(hx(p_now.to_bytes(w // 8, "little")))
+            continue
+        txt = s[3:]
+        new = None
+        if view == "raw":
+            new = int(txt)
+            if not fits(t, new):
+                return None              # outside the type's range: outside the property
+        elif view == "phys":
+            if f == 0:
+                return None
+            q = s_fr(txt) / f
+            if 2 * (q - (q.numerator // q.denominator)) == 1:
+                return None              # an exact tie has two nearest integers: judged on single operations
+            new = half_even(q)
+        elif view == "desc":
+            named = [v for v, x in tbl if x == str_of(unil(txt))]
+            new = named[0] if named else None
+        else:
+            b = unhx(txt)
+            if len(b) != w // 8:
+                return None
+            new = int.from_bytes(b, "little", signed=signed)
+        if new is None or not fits(t, new):
+            res.append("err")            # nothing it could store: it must raise and leave the value alone
+        else:
+            p_now = new % (1 << w)
+            res.append("ok")
+    exp = f"ok {';'.join(res)} {hx(put(p_now.to_bytes(w // 8, 'little')))}"
+    if out != exp:
+        got, want = out.split(" ")[1].split(";") if out.count(" ") == 2 else [], res
+        at = next((i for i, (x, y) in enumerate(zip(got, want)) if x != y), None)
+        where = f" (first difference at step {at + 1}: {a[6].split('|')[at]} gave {got[at]}, the statement gives {want[at]})" \
+            if at is not None else ""
+        return f"history of accesses on one variable gave {out}, expected {exp}{where}"
+    return None
+
+
+def oracle_plain(op, out):
     a = op.split(" ")
     kind = a[0]
-    if out.startswith("HARNESS-RAISED") or out == "bad-op" or "nonint" in out or "nonstr" in out:
-        return f"unexpected harness-level output {out}"
     t = int(a[2])
     if t not in SPEC:
         return None
@@ -516,6 +938,32 @@ def oracle(op, out):
         return None                      # no raw value to speak of: correspondence only
     P = int.from_bytes(cur, "little")
     raw = int.from_bytes(cur, "little", signed=signed)
+    if kind == "raw":
+        if a[3] == "get":
+            exp = f"ok {raw}"
+            if out != exp:
+                return f"raw value of stored {hx(cur)} read as {out}, it is {exp}"
+            return None
+        v = int(a[4])
+        if not fits(t, v):
+            return None                  # "raw values over each type's range"
+        exp = f"ok {hx(put(pat(t, v)))} {v}"
+        if out != exp:
+            return f"raw = {v} gave {out}, expected {exp}"
+        return None
+    if kind == "data":
+        if a[3] == "get":
+            exp = f"ok {hx(cur)}"
+            if out != exp:
+                return f"the bytes of the variable read as {out}, it holds {exp}"
+            return None
+        b = unhx(a[4])
+        if len(b) != w // 8:
+            return None
+        exp = f"ok {hx(put(b))} {hx(b)}"
+        if out != exp:
+            return f"data = {hx(b)} gave {out}, expected {exp}"
+        return None
     if kind == "bits":
         rg = key_range(a[4], parse_defs(a[3]))
         if rg is None:
@@ -665,7 +1113,7 @@ def oracle(op, out):
             return None
         size = w // 8
         st = unhx(o[1])
-        off = int(a[1].split(":")[1]) if a[1].startswith("p:") else 0
+        off = int(a[1].split(":")[1]) if a[1][0] in "pP" else 0
         r = int.from_bytes(st[off:off + size], "little", signed=signed)
         if abs(q - r) > Fraction(1, 2) + slack * max(1, abs(q)):
             return f"raw {r} is not a nearest integer of {float(v)}/{float(f)} = {float(q)}"
@@ -678,6 +1126,12 @@ def oracle(op, out):
 
 def signature(op, what):
     a = op.split(" ")
+    if a[0] == "via":
+        return "via:" + signature(" ".join(a[2:]), what)
+    if a[0] in ("raw", "data"):
+        return f"{a[0]}:{a[3]}"
+    if a[0] in ("mseq", "fmt"):
+        return a[0]
     if a[0] == "bits" and len(a) > 5:
         sp = a[4].split(":")[0]
         t = int(a[2])
@@ -706,6 +1160,13 @@ def nontrivial(op, out):
 
 def classify(op, out):
     a = op.split(" ")
+    res = "ok" if out.startswith("ok") else "err"
+    if a[0] == "via":
+        return f"via-{a[2]}:{a[1]}:{a[-1] if a[-1] == 'get' else 'set'}:{res}"
+    if a[0] in ("raw", "data", "fmt"):
+        return f"{a[0]}:{a[1][0]}:{a[3] if a[0] != 'fmt' else a[4]}:{res}"
+    if a[0] in ("mseq", "vseq"):
+        return f"{a[0]}:{a[1][0]}:{res}"
     st = a[1][0]
     sub = a[4].split(":")[0] + ":" + a[5] if a[0] == "bits" else (a[4] if a[0] != "seq" else "")
     return f"{a[0]}:{st}:{sub}:{'ok' if out.startswith('ok') else 'err'}"
@@ -713,10 +1174,28 @@ def classify(op, out):
 
 def shrink_candidates(op):
     a = op.split(" ")
+    if a[0] == "via":
+        # which spelling matters: try the attribute for the read, then for the write; then the operation itself
+        w, _, r = a[1].partition(":")
+        if r != "p":
+            yield " ".join(["via", f"{w}:p"] + a[2:])
+        if w != "p":
+            yield " ".join(["via", f"p:{r}"] + a[2:])
+        for c in shrink_candidates(" ".join(a[2:])):
+            yield f"via {a[1]} {c}"
+        return
+    if a[0] == "mseq":
+        steps = a[6].split("|")
+        for i in range(len(steps) - 1, -1, -1):
+            if len(steps) > 1:
+                yield " ".join(a[:6] + ["|".join(steps[:i] + steps[i + 1:])])
+        for i, st in enumerate(steps):    # a method spelling replaced by the attribute
+            if st[0] in "man":
+                yield " ".join(a[:6] + ["|".join(steps[:i] + ["p" + st[1:]] + steps[i + 1:])])
     p = a[1].split(":")
     if p[0] != "d":                       # simplest store first
         size = SPEC.get(int(a[2]), (8,))[0] // 8
-        if p[0] == "p":
+        if p[0] in ("p", "P"):
             off = int(p[1])
             val = unhx(p[2])[off:off + size]
         else:
@@ -756,12 +1235,12 @@ def rand_raw_bytes(rng, w, style=None):
 def mk_store(rng, t, val, kind=None):
     kind = kind or rng.choice("dlsp")
     size = len(val)
-    if kind == "p":
+    if kind in ("p", "P"):
         room = 8 - size
         off = rng.randint(0, room) if room > 0 else 0
         trail = rng.randint(0, room - off) if room - off > 0 else 0
         frame = bytes(rng.getrandbits(8) for _ in range(off)) + val + bytes(rng.getrandbits(8) for _ in range(trail))
-        return f"p:{off}:{hx(frame)}"
+        return f"{kind}:{off}:{hx(frame)}"
     return f"{kind}:{hx(val)}"
 
 
@@ -1067,10 +1546,136 @@ def gen_phys(tier, rng):
             yield f"physx {mk_store(rng, t, rand_raw_bytes(rng, w))} {t} {fr_s(f)} set {fr_s(q * f)}"
 
 
+ALL_KINDS = "dlspLASTP"
+MEMBER_ALT = {"d": "d", "l": "lLA", "s": "sST", "p": "pP"}
+
+
+def via_pairs(view):
+    """(write spelling, read spelling) pairs of a view, the all-attribute pair (the plain operation) left out"""
+    letters = "pman" if view == "raw" else "pma"
+    return [(w, r) for w in letters for r in letters if (w, r) != ("p", "p")]
+
+
+def vary_store(rng, st):
+    """the same bytes behind a stand-alone variable, a record member or an array member"""
+    return rng.choice(MEMBER_ALT[st[0]]) + st[1:]
+
+
+FMT_NAMES = ["bits", "", "RAW", "raw ", " raw", "Raw", "physical", "data", "desc\x00", "phys,desc", "raw"]
+
+
+def gen_methods(tier, rng):
+    """the method spellings as an access-path dimension of every view"""
+    quick = tier == "quick"
+    # (1) the phys and desc streams again, every operation through a method spelling of the write and / or the
+    #     read-back, the variable standing alone or being a record / array member
+    for src, view in ((gen_phys, "phys"), (gen_desc, "desc")):
+        pairs = via_pairs(view)
+        for op in src(tier, rng):
+            a = op.split(" ")
+            w, r = rng.choice(pairs)
+            a[1] = vary_store(rng, a[1])
+            yield f"via {w}:{r} " + " ".join(a)
+    # (1b) every pair of spellings on the ties and near-ties of a few factors, every kind of variable
+    for f in (Fraction(1, 4), Fraction(-1, 4), Fraction(5, 2), Fraction(-3, 8), Fraction(1), Fraction(-1), Fraction(3)):
+        for w, r in via_pairs("phys"):
+            for kind in (rng.sample(ALL_KINDS, 3) if quick else ALL_KINDS):
+                t = rng.choice([0x03, 0x04, 0x02, 0x10, 0x06, 0x07])
+                wd, signed = SPEC[t]
+                n = rng.randint(-100 if signed else 1, 100)
+                for fr in (Fraction(1, 4), Fraction(-1, 4), Fraction(3, 8), Fraction(-3, 8), Fraction(1, 2) + Fraction(1, 64),
+                           Fraction(-1, 2) - Fraction(1, 64), Fraction(1, 2)):
+                    st = mk_store(rng, t, rand_raw_bytes(rng, wd), kind)
+                    yield f"via {w}:{r} {rng.choice(['phys', 'physf'])} {st} {t} {fr_s(f)} set {fr_s((n + fr) * f)}"
+    # (2) the raw value and the bytes themselves: every integer type, every kind of variable
+    for t in INT_TYPES:
+        wd, signed = SPEC[t]
+        lo, hi = (-(1 << (wd - 1)), (1 << (wd - 1)) - 1) if signed else (0, (1 << wd) - 1)
+        for kind in ALL_KINDS:
+            vals = [lo, hi, 0, 1, -1 if signed else 2, rng.randint(lo, hi), rng.randint(lo, hi), hi + 1, lo - 1]
+            datas = [pat(t, lo), pat(t, hi), rand_raw_bytes(rng, wd, 4), rand_raw_bytes(rng, wd, 2)]
+            rp, dp = via_pairs("raw"), via_pairs("data")
+            for w, r in (rng.sample(rp, 2) if quick else rp):
+                st = mk_store(rng, t, rand_raw_bytes(rng, wd), kind)
+                yield f"via {w}:{r} raw {st} {t} get"
+                for v in rng.sample(vals, 2 if quick else 4):
+                    yield f"via {w}:{r} raw {st} {t} set {v}"
+            for w, r in (rng.sample(dp, 2) if quick else dp):
+                st = mk_store(rng, t, rand_raw_bytes(rng, wd), kind)
+                yield f"via {w}:{r} data {st} {t} get"
+                for b in rng.sample(datas, 2 if quick else 3):
+                    yield f"via {w}:{r} data {st} {t} set {hx(b)}"
+            st = mk_store(rng, t, rand_raw_bytes(rng, wd), kind)
+            yield f"raw {st} {t} get"
+            yield f"raw {st} {t} set {rng.choice(vals)}"
+            yield f"data {st} {t} get"
+            yield f"data {st} {t} set {hx(rng.choice(datas))}"
+        # bytes of the wrong length (model only; a dict cell and a PDO frame take them as they are)
+        for kind in "dp":
+            for n in (0, wd // 8 - 1, wd // 8 + 1):
+                st = mk_store(rng, t, rand_raw_bytes(rng, wd), kind)
+                if kind == "p" and n > wd // 8:
+                    continue
+                yield f"via {rng.choice('pm')}:{rng.choice('pm')} data {st} {t} set {hx(bytes(rng.getrandbits(8) for _ in range(n)))}"
+    # (3) histories on one variable object mixing spellings, views and bit fields
+    small = [t for t in INT_TYPES if SPEC[t][0] <= 32]
+    facs = [Fraction(1), Fraction(1, 4), Fraction(-1, 2), Fraction(5, 8), Fraction(3), Fraction(-2), Fraction(1, 16)]
+    for _ in range(400 if quick else 4000):
+        t = rng.choice(small)
+        wd, signed = SPEC[t]
+        lo, hi = (-(1 << (wd - 1)), (1 << (wd - 1)) - 1) if signed else (0, (1 << wd) - 1)
+        f = rng.choice(facs)
+        tvals = set()
+        while len(tvals) < rng.randint(1, 5):
+            tvals.add(rng.choice([lo, hi, 0, 1, rng.randint(lo, hi), rng.randint(0, 9)]))
+        tvals = sorted(tvals)
+        tbl = [(v, DESCS[i]) for i, v in enumerate(tvals)]
+        flo = rng.randrange(wd)
+        fhi = rng.randint(flo + 1, wd)
+        defs = [("F", list(range(flo, fhi)))]
+        steps = []
+        for _ in range(rng.randint(3, 8)):
+            c = rng.random()
+            sp = rng.choice("pma")
+            if c < 0.15:
+                steps.append(f"{rng.choice('pman')}r?")
+            elif c < 0.25:
+                steps.append(f"{sp}f?")
+            elif c < 0.32:
+                steps.append(f"{sp}d?")
+            elif c < 0.40:
+                steps.append(f"{sp}b?")
+            elif c < 0.52:
+                steps.append(f"{rng.choice('pman')}r={rng.choice(tvals + [rng.randint(lo, hi), rng.randint(lo, hi)])}")
+            elif c < 0.70:
+                n = rng.choice([lo, hi, 0, rng.randint(lo, hi), rng.randint(-50, 50), hi + 1, lo - 1] + tvals)
+                fr = rng.choice([Fraction(0), Fraction(1, 4), Fraction(-1, 4), Fraction(3, 8), Fraction(-3, 8),
+                                 Fraction(1, 2) - Fraction(1, 256), Fraction(-1, 2) + Fraction(1, 256)])
+                steps.append(f"{sp}f={fr_s((n + fr) * f)}")
+            elif c < 0.80:
+                d = rng.choice([d for _, d in tbl] + ["UNKNOWN"])
+                steps.append(f"{sp}d={nl(cps_of(d))}")
+            elif c < 0.88:
+                steps.append(f"{sp}b={hx(rand_raw_bytes(rng, wd))}")
+            else:
+                key = rng.choice([key_s("s", flo, fhi, None), key_s("d", cps_of("F")), key_s("l", list(range(flo, fhi)))])
+                steps.append(f"B{key}?" if rng.random() < 0.5 else f"B{key}={rng.randint(0, (1 << (fhi - flo)) - 1)}")
+        st = mk_store(rng, t, rand_raw_bytes(rng, wd), rng.choice(ALL_KINDS))
+        yield f"mseq {st} {t} {fr_s(f)} {tbl_s(tbl)} {defs_s(defs)} {'|'.join(steps)}"
+    # (4) fmt strings that name no view (model only): read returns None, write does nothing
+    for name in FMT_NAMES:
+        for kind in ("d", "l", "p") if quick else ALL_KINDS:
+            t = rng.choice(INT_TYPES)
+            st = mk_store(rng, t, rand_raw_bytes(rng, SPEC[t][0]), kind)
+            yield f"fmt {st} {t} {nl(cps_of(name))} get"
+            yield f"fmt {st} {t} {nl(cps_of(name))} set {rng.randint(0, 100)}"
+
+
 def gen_ops(tier, rng):
     yield from gen_bits(tier, rng)
     yield from gen_desc(tier, rng)
     yield from gen_phys(tier, rng)
+    yield from gen_methods(tier, rng)
 
 
 def search_ops(tier, rng):
@@ -1093,6 +1698,16 @@ CORPUS = [
     "phys d:0000 3 1/4 set 5/8",          # tie: 2.5 -> 2
     "phys d:0000 3 1/4 set 7/8",          # tie: 3.5 -> 4
     "phys d:0000 3 -1/4 set 7/8",         # tie: -3.5 -> -4
+    # the documented methods: write(0.3, fmt="phys") with factor 0.1 stores 3 (a truncating write stored 2)
+    "via m:p physx d:0000 3 1/10 set 3/10",
+    "via a:m physx s:0000 3 1/10 set -777/100",
+    "via m:m phys p:1:aa0000bb 3 1/4 set 11/16",      # 2.75 -> 3
+    "via a:a phys S:00000000 4 -2/1 set 7/1",         # -3.5 -> -4 (tie) on a record member over SDO
+    "via m:n raw T:0000 3 set -2",
+    "via n:a raw P:2:aabb0000cc 6 set 65535",
+    "via m:m desc A:00 5 0=79,70,70;1=79,78 set 79,78",
+    "via p:m data l:0000 3 set 0102",
+    "mseq L:0000 3 1/4 3=79,78;-2=79,70,70 70=0,1 mf=11/16|nr?|pd?|ab?|ad=79,70,70|pf?|Bd:70=1|mr?",
 ]
 
 LEVEL_TEXT = ("Lean 4 theorems over all Python-int raw values, all contiguous bit ranges (unbounded; also arbitrary "
@@ -1100,8 +1715,13 @@ LEVEL_TEXT = ("Lean 4 theorems over all Python-int raw values, all contiguous bi
               "and values (round-half-even), and all lawful stores (any two lawful stores are indistinguishable "
               "through the views; dict cell and byte-aligned PDO window proved lawful), composed with the C04 codec "
               "for the 16 integer types, signed ones included (bits = two's complement pattern in the type's width, "
-              "fields containing the sign bit included); model tied to the code by a differential run over four real stores "
-              "(dict, LocalNode, SDO over a fake bus, PDO)")
+              "fields containing the sign bit included); the documented methods read(fmt)/write(value, fmt) and "
+              ".data/get_data/set_data modelled as coded and proved to agree with the attributes for every fmt, for "
+              "single accesses and for histories mixing the spellings, so that the half-step / description / bit-field "
+              "theorems hold through the method API (restated with the raw value observed through read() and .data); "
+              "model tied to the code by a differential run over four real stores "
+              "(dict, LocalNode, SDO over a fake bus, PDO), the variable standing alone or being a record / array member, "
+              "every view through every spelling")
 LEVEL_NOTE = ("scaling is proved over the rationals: IEEE rounding of '/' and '*' is differential-only (exact dyadic "
               "stream compared with the model, decimal factors bounded by the oracle); the SDO store law is a "
               "hypothesis here (C01-C03); reading a field that reaches beyond the width of a signed variable (sign "
